@@ -80,7 +80,7 @@ func genCase(t *rapid.T, backends []string) kase {
 			c.Base[k] = "base:" + k
 		}
 	}
-	n := rapid.IntRange(1, 40).Draw(t, "nops")
+	n := rapid.IntRange(6, 40).Draw(t, "nops")
 	kinds := []string{"begin", "begin", "begin", "commit", "commit", "rollback", "rollback",
 		"set", "set", "set", "set", "set", "del", "del", "del", "get", "get", "getall", "list", "list", "seek", "count"}
 	intx := false
